@@ -176,6 +176,13 @@ def c04_scenarios(tier):
             sn = sched.Scenario("%s/build/eager:%s" % (sh, t), ts, all_x(ts, ["build"]), ["-c", "build"], ["build"],
                                 eager=[("build", t)])
             out.append(("c04", sn.describe(), {"max_dev": 0 if tier == "quick" else 1, "sequences": None}))
+    # many commands in one invocation (eleven and twelve, by -c and through a sequence): still in the order given
+    ts = shape_targets("chain2_plus_isolated")
+    for ncmd_ in (11, 12):
+        cmds_ = ["c%02d" % i for i in range(ncmd_)]
+        for args_, seqs_ in ((["-c"] + cmds_, None), (["-s", "all"], {"all": cmds_}), (["-s", "first"] + ["-c"] + cmds_[3:], {"first": cmds_[:3]})):
+            sn = sched.Scenario("chain2_plus_isolated/%d-commands/%s" % (ncmd_, args_[0]), ts, all_x(ts, cmds_), args_, cmds_, sequences=seqs_)
+            out.append(("c04", sn.describe(), {"max_dev": 0, "sequences": seqs_}))
     # one target does not define the first command (it is reported `undefined`, nothing is started for it):
     # the others are still ordered among themselves
     for sh in shapes:
@@ -1037,6 +1044,48 @@ def c06h_task(desc):
         s.cleanup()
 
 
+def c06i_task(desc):
+    """The process may use one, two or three CPUs only (taskset, a small container): a run in which nothing fails
+    reports failed=false and exits 0, a run in which the middle target of a chain exits 7 reports that, exits 1
+    and skips the rest."""
+    ncpu, fail = desc["cpus"], desc["fail"]
+    allowed = sorted(os.sched_getaffinity(0))
+    if len(allowed) < ncpu:
+        return {"evaluations": 0, "nontrivial": 0, "states": 0, "transitions": 0, "unrealised": 0, "violations": [], "sample": {"skipped": "fewer CPUs available"}}
+    cpus = set(allowed[-ncpu:])
+    ts = [{"path": "a"}, {"path": "b", "uses": ["a"]}, {"path": "c", "uses": ["b"]}, {"path": "d"}]
+    s = sc.Scratch("c06i")
+    try:
+        r = sc.Repo(s, "r", ts, commands={t["path"]: {"build": "x", "test": "x"} for t in ts}, init_git=False)
+        for t_ in ts:
+            r.set_script(t_["path"], "build", ["out " + ("build of %s\n" % t_["path"]).encode().hex(), "exit 0"])
+        if fail:
+            r.set_script("b", "build", ["err " + b"b fails\n".hex(), "exit 7"])
+        res = r.mr("run", "-c", "build", "test", env=r.trace_env(), cpus=cpus)
+        doc = res.json()
+        started = sorted({"%s:%s" % (r.target_pair(x)[1], r.target_pair(x)[0]) for x in r.traces()})
+        viol = []
+        label = "with %d usable CPU(s), %s" % (ncpu, "b exits 7" if fail else "nothing fails")
+        if doc is None:
+            viol.append(("no-result-document", "%s: exit %s %s" % (label, res.code, res.err[-300:])))
+        else:
+            st = {(cr["command"], t_): v for cr in doc["results"] for g in cr["target_groups"] for t_, v in g.items()}
+            if bool(doc.get("failed")) != fail or res.code != (1 if fail else 0):
+                viol.append(("failed-flag-wrong", "%s: failed=%s, exit status %s" % (label, doc.get("failed"), res.code)))
+            if fail:
+                if (st.get(("build", "b")) or {}).get("code") != 7 or (st.get(("build", "c")) or {}).get("status") != "skipped" or "build:c" in started or any(x.startswith("test:") for x in started):
+                    viol.append(("status-wrong", "%s: statuses %s, started %s" % (label, {("%s:%s" % k): v.get("status") for k, v in st.items()}, started)))
+            elif any(v.get("status") != "success" for v in st.values()) or len(started) != 8:
+                viol.append(("status-wrong", "%s: statuses %s, started %s" % (label, {("%s:%s" % k): v.get("status") for k, v in st.items()}, started)))
+        return {"evaluations": 1, "nontrivial": 1, "states": 1, "transitions": 1, "unrealised": 0,
+                "violations": [{"sig": sig, "detail": d, "rank": 690, "case": {"c06i": desc}} for sig, d in viol],
+                "sample": {"usable_cpus": ncpu, "fail": fail}}
+    except common.EngineError as e:
+        return {"engine_error": str(e)}
+    finally:
+        s.cleanup()
+
+
 def c06c_task(desc):
     """C06 under delays of the compressor threads (guarded point compressor.loop): the scenario of
     p_c08.order_task judged for the failed flag, exit status, statuses and skipping."""
@@ -1455,6 +1504,8 @@ def _worker(task):
             return c04_long_task(desc)
         if kind == "c06h":
             return c06h_task(desc)
+        if kind == "c06i":
+            return c06i_task(desc)
     except common.EngineError as e:
         return {"engine_error": "%s: %s" % (kind, e)}
     except Exception:
@@ -1468,7 +1519,7 @@ def run_tasks(tasks, workers=None):
 RULES = {
     "C04": "(plus one executable of a two-target, two-command plan that keeps running for 31 s - thorough also 65 s and 125 s - while its dependants wait) (thorough adds every labelled DAG on 2-4 nodes, single command, every release order) scenarios: 12 dependency shapes x selection modes (all targets / changed subset after a checkpoint / -t with --deps) x command lists (build; build test; sequence(build,test) then lint); every child blocks until released; stateless DFS over every release order (single-command scenarios: all orders; multi-command: all schedules with <= max_dev non-default choices) plus the eager deviation for every single child; monitor: at each arrival every dependency in the run and every executable of every earlier command has exited; evaluations = executions (complete runs); non-trivial = scenarios with more than one schedule",
     "C16": "(plus groups whose members all resolve the command to one shared executable, through definitions or a shared commands.path) (plus group sizes 2..13 with a `log tail` listener attached, three filter variants) (plus chains of wide groups, e.g. 30/30/10 and 40/40 under 1-2 commands, so that many tasks precede the group under test) group sizes x position of the group in the plan (only, first, middle, last) x 1-2 commands; no member is released before every member of the group has arrived (each member waits for all the others to start); oracle: every member arrives, then the run exits 0 with all success entries; non-trivial = scenarios where the full group rendezvoused for every command",
-    "C06": "part B (internal orderings): plans with a group of n in {1,2,3} (thorough 4) followed by a dependent target, all commands succeed, points group.pre_shutdown:<i> and compressor.gone:<x> active; the free run, every single constraint `compressor.gone:x before group.pre_shutdown:i` per group and pairs of constraints (hit b is held until hit a was seen); oracle exit 0, failed=false, all success, stored logs complete; plus the compressor-delay scenarios of C08 (guarded point compressor.loop: free / held until the group is joined / until the first shutdown request / one request behind) x no failure and each member failing last, judged for failed flag, exit status, statuses and skipping of the dependent group; plus runs without any failure in which one member leaves a helper process behind that holds its output streams open (0.6 - 2.5 s) while a sibling is still running; plus an earlier command taking away / granting the execute bit of a later target's command file during the run; plus command files of every permission mode 0000-0777 (quick: 48 of them), started exactly when they carry an execute bit; plus a failing member at several positions of groups of 130 / 257 (thorough 513) targets; plus -t app --deps with and without -a values, with and without --fail-on-undefined, where none / each one of the three targets of the chain does not define the command. part A: plans = dependency shapes with two commands; fault assignments: every single fault (exit codes, death by signal, missing x bit, undefined with/without --fail-on-undefined) at every (command,target) position, pairs of faults within a command, and no fault; every exit code 1..255 at one position of the fork shape (default schedule); a subset again with an earlier failed / successful run's records on disk and with a listener attached; for each every release order of the groups (<=3 members); oracle: failed flag, exit status, skipped/not-started later groups and commands, status truthfulness; evaluations = executions",
+    "C06": "part B (internal orderings): plans with a group of n in {1,2,3} (thorough 4) followed by a dependent target, all commands succeed, points group.pre_shutdown:<i> and compressor.gone:<x> active; the free run, every single constraint `compressor.gone:x before group.pre_shutdown:i` per group and pairs of constraints (hit b is held until hit a was seen); oracle exit 0, failed=false, all success, stored logs complete; plus the compressor-delay scenarios of C08 (guarded point compressor.loop: free / held until the group is joined / until the first shutdown request / one request behind) x no failure and each member failing last, judged for failed flag, exit status, statuses and skipping of the dependent group; plus runs without any failure in which one member leaves a helper process behind that holds its output streams open (0.6 - 2.5 s) while a sibling is still running; plus an earlier command taking away / granting the execute bit of a later target's command file during the run; plus command files of every permission mode 0000-0777 (quick: 48 of them), started exactly when they carry an execute bit; plus runs confined to one, two and three CPUs (nothing failing / one target exiting 7); plus a failing member at several positions of groups of 130 / 257 (thorough 513) targets; plus -t app --deps with and without -a values, with and without --fail-on-undefined, where none / each one of the three targets of the chain does not define the command. part A: plans = dependency shapes with two commands; fault assignments: every single fault (exit codes, death by signal, missing x bit, undefined with/without --fail-on-undefined) at every (command,target) position, pairs of faults within a command, and no fault; every exit code 1..255 at one position of the fork shape (default schedule); a subset again with an earlier failed / successful run's records on disk and with a listener attached; for each every release order of the groups (<=3 members); oracle: failed flag, exit status, skipped/not-started later groups and commands, status truthfulness; evaluations = executions",
     "C05": "(plus variants in which some targets define the command through commands.definitions with explicit paths and the declaration order is reversed) dependency shapes x command-definition patterns x command lists x selection modes (no targets without checkpoint; checkpoint + every changed subset; -t S; -t S --deps; the -t forms also with a checkpoint present) in trace mode; oracle: result document pairs == commands x selected targets exactly once, groups equal analyze --target-groups taken immediately before (or singletons / a valid layering of the closure), executable starts at most once, exactly once iff defined and nothing failed earlier, never when undefined; evaluations = runs",
 }
 
@@ -1486,6 +1537,7 @@ def run(prop, tier):
             ([("c06e", {"direction": d_}, {}) for d_ in ("revoke", "grant")] if "B" in part else []) + \
             ([("c06f", {"modes": ms}, {}) for ms in c06f_modes(tier)] if "B" in part else []) + \
             ([("c06h", {"n": n_, "fail": k_}, {}) for (n_, k_) in ([(130, 0), (130, 129), (257, 5), (257, 200)] if tier == "quick" else [(130, 0), (130, 64), (130, 129), (257, 5), (257, 128), (257, 256), (513, 1), (513, 300)])] if "B" in part else []) + \
+            ([("c06i", {"cpus": n_, "fail": f_}, {}) for n_ in (1, 2, 3) for f_ in (False, True)] if "B" in part else []) + \
             ([("c06g", {"undef": u_, "flag": f_, "args": a_}, {}) for u_ in (None, "base", "lib", "app") for f_ in (False, True) for a_ in (False, True)] if "B" in part else [])
     if prop == "C04":
         # first in the list: it takes half a minute of waiting, the pool works on the others meanwhile
@@ -1568,6 +1620,8 @@ def replay(prop, path):
         r = c04_long_task(case["c04long"])
     elif "c06h" in case:
         r = c06h_task(case["c06h"])
+    elif "c06i" in case:
+        r = c06i_task(case["c06i"])
     elif "c05" in case:
         r = c05_task(case["c05"])
     else:
